@@ -292,7 +292,7 @@ type c01Case struct {
 	Main     []string          `json:"main"`   // compose files in load order
 	Switches []string          `json:"switches"`
 	MustName string            `json:"must_name"`
-	Entry    string            `json:"entry"` // "" loader.LoadWithContext | cli-project | cli-model | parse-yaml
+	Entry    string            `json:"entry"`  // "" loader.LoadWithContext | cli-project | cli-model | parse-yaml
 	Linked   bool              `json:"linked"` // the project directory is a symbolic link to the directory that holds the files
 }
 
